@@ -3,7 +3,7 @@ From Coq Require Import Reals String List Lra.
 From TT Require Import lib.PreludeR lib.Stats lib.Distr genR.Aggr genR.Mean.
 Local Open Scope R_scope.
 
-Ltac nR := cbv [nlit nraise neqb nsqrt nexp nabs npow pow] in *.
+Ltac nR := cbv [nlit nraise neqb nsqrt nexp nexp_sat nabs nmax npow pow] in *.
 
 Section Core.
 Variable fam : dist_family R.
@@ -11,7 +11,24 @@ Variable fam : dist_family R.
 (* textbook quantities, written independently of the generated code *)
 Definition pooled_var (cv cn tv tn : R) : R := ((cn - 1) * cv + (tn - 1) * tv) / (cn + tn - 2).
 Definition se_of (equal_var : bool) (cv cn tv tn : R) : R :=
+  if equal_var then sqrt (Rmax (pooled_var cv cn tv tn / cn + pooled_var cv cn tv tn / tn) 0)
+  else sqrt (Rmax (cv / cn + tv / tn) 0).
+(* the clamp at zero (it only guards against a rounding error making the variance negative) is inactive on the reals *)
+Definition se_plain (equal_var : bool) (cv cn tv tn : R) : R :=
   if equal_var then sqrt (pooled_var cv cn tv tn / cn + pooled_var cv cn tv tn / tn) else sqrt (cv / cn + tv / tn).
+Lemma se_of_plain ev cv cn tv tn : 0 <= cv -> 0 <= tv -> 1 < cn -> 1 < tn -> se_of ev cv cn tv tn = se_plain ev cv cn tv tn.
+Proof.
+  intros Hcv Htv Hcn Htn. unfold se_of, se_plain, pooled_var.
+  assert (H1 : 0 <= cv / cn) by (apply Rmult_le_pos; [lra | left; apply Rinv_0_lt_compat; lra]).
+  assert (H2 : 0 <= tv / tn) by (apply Rmult_le_pos; [lra | left; apply Rinv_0_lt_compat; lra]).
+  destruct ev.
+  - assert (Hp : 0 <= ((cn - 1) * cv + (tn - 1) * tv) / (cn + tn - 2)).
+    { apply Rmult_le_pos; [|left; apply Rinv_0_lt_compat; lra].
+      apply Rplus_le_le_0_compat; apply Rmult_le_pos; lra. }
+    rewrite Rmax_left; [reflexivity|].
+    apply Rplus_le_le_0_compat; (apply Rmult_le_pos; [exact Hp | left; apply Rinv_0_lt_compat; lra]).
+  - rewrite Rmax_left; [reflexivity | lra].
+Qed.
 Definition welch_df (cv cn tv tn : R) : R :=
   (cv / cn + tv / tn) * (cv / cn + tv / tn)
   / ((cv / cn) * (cv / cn) / (cn - 1) + (tv / tn) * (tv / tn) / (tn - 1)).
@@ -122,10 +139,15 @@ Proof.
   - split; [apply (F_norm fam HF) | apply (F_norm_sym fam HF)].
 Qed.
 
+Lemma Rmax_scale c x : 0 < c -> Rmax (c * x) 0 = c * Rmax x 0.
+Proof.
+  intros Hc. unfold Rmax. destruct (Rle_dec (c * x) 0) as [H|H], (Rle_dec x 0) as [H'|H']; try lra; nra.
+Qed.
+
 Lemma se_of_pos ev cv cn tv tn : 1 < cn -> 1 < tn -> 0 <= cv -> 0 <= tv -> 0 < cv + tv ->
   0 < se_of ev cv cn tv tn.
 Proof.
-  intros Hcn Htn Hcv Htv Hs. unfold se_of, pooled_var.
+  intros Hcn Htn Hcv Htv Hs. rewrite se_of_plain by assumption. unfold se_plain, pooled_var.
   assert (Hi1 : 0 < / cn) by (apply Rinv_0_lt_compat; lra).
   assert (Hi2 : 0 < / tn) by (apply Rinv_0_lt_compat; lra).
   destruct ev; apply sqrt_lt_R0.
